@@ -48,6 +48,10 @@ class Func:
         self.locals = local_names(node)
         self.cached = any((dotted_of(d.func if isinstance(d, ast.Call) else d) or "").split(".")[-1] in ("lru_cache", "cache")
                           for d in node.decorator_list)
+        # decorators the interpreter applies by evaluating them (core.Interp.call_decorated); lru_cache / cache are modelled as
+        # "results shared between calls" instead (self.cached)
+        self.decorators = [d for d in node.decorator_list
+                           if (dotted_of(d.func if isinstance(d, ast.Call) else d) or "").split(".")[-1] not in ("lru_cache", "cache")]
         self.is_method = cls is not None and bool(self.posparams) and self.posparams[0] == "self"
 
     @property
@@ -152,6 +156,8 @@ class Module:
                 dn = dotted_of(d.func if isinstance(d, ast.Call) else d) or "?"
                 if dn.split(".")[-1] in ("lru_cache", "cache"):
                     continue          # modelled: the function's results are shared between calls (Func.cached)
+                if dn.split(".")[-1] == "wraps":
+                    continue          # functools.wraps(f)(wrapper) is the wrapper
                 # a decorated function is only a problem for the checks that analyse *it*
                 own = owner
                 if isinstance(n, ast.FunctionDef) and owner is not None and owner.endswith("." + n.name):
